@@ -9,6 +9,10 @@
 (*             from it                                                     *)
 (*  e = "Lit"  one SMTPError composite literal of the source tree (go/ast  *)
 (*             scan); helper pairs evaluated by the real helpers           *)
+(*  e = "Hist" one recipient failing over several attempts of the real     *)
+(*             queue: attempts made and what the failure report says       *)
+(*  e = "Auth" the reply of the real submission endpoint to a SASL         *)
+(*             exchange whose authentication provider fails with in.term   *)
 (*  e = "Comp" a reply whose codes are computed at run time, recorded from *)
 (*             the real code path (site) driven with the input in          *)
 (*                                                                         *)
@@ -77,7 +81,26 @@ CompVerdict(r) ==
   IN [t |-> r.t, drift |-> expl = {}, driftAt |-> IF expl = {} THEN r.seq ELSE 0, viol |-> viol,
       devs |-> IF viol = {} THEN {} ELSE IF expl = {} THEN {"UNEXPLAINED"} ELSE Smallest(expl)]
 
+\* e = "Hist": one recipient over several attempts of the real queue
+HistVerdict(r) ==
+  LET o    == [attempts |-> r.out.attempts, dsn |-> r.out.dsn, dcode |-> r.out.dcode, denh |-> r.out.denh,
+               status |-> r.out.status]
+      viol == HistViol(r.in, o)
+      expl == {D \in SUBSET Devs : LET m == HistRule(D, r.in) IN m = o /\ HistViol(r.in, m) = viol}
+  IN [t |-> r.t, drift |-> expl = {}, driftAt |-> IF expl = {} THEN r.seq ELSE 0, viol |-> viol,
+      devs |-> IF viol = {} THEN {} ELSE IF expl = {} THEN {"UNEXPLAINED"} ELSE Smallest(expl)]
+
+\* e = "Auth": the reply to a failed SASL exchange
+AuthVerdict(r) ==
+  LET o    == [code |-> r.out.code, enh |-> r.out.enh, msg |-> r.out.msg]
+      viol == AuthViol(r.in, o)
+      expl == {D \in SUBSET Devs : LET m == AuthRule(D, r.in) IN m = o /\ AuthViol(r.in, m) = viol}
+  IN [t |-> r.t, drift |-> expl = {}, driftAt |-> IF expl = {} THEN r.seq ELSE 0, viol |-> viol,
+      devs |-> IF viol = {} THEN {} ELSE IF expl = {} THEN {"UNEXPLAINED"} ELSE Smallest(expl)]
+
 Verdict(r) == IF r.e = "Row" THEN TermVerdict(r)
+              ELSE IF r.e = "Hist" THEN HistVerdict(r)
+              ELSE IF r.e = "Auth" THEN AuthVerdict(r)
               ELSE IF r.e = "Lit" THEN LitVerdict(r)
               ELSE IF r.e = "Comp" THEN CompVerdict(r)
               ELSE [t |-> r.t, drift |-> FALSE, driftAt |-> 0, viol |-> {}, devs |-> {}]
